@@ -84,18 +84,22 @@ def exchangeOutcomes (cf : MG Var) (outcomes : Event) (cond : Var) (val : Iv) : 
 
 /-! ### `Expression.conditional` (dsl.py:702-718, 864-878) -/
 
-/-- `_iter_variables` of a variable: itself, then its interventions — as base names -/
-def varNames (v : Var) : List Name := v.name :: v.ivs.map (·.name)
-
-/-- base names of `expression._iter_variables()` -/
+mutual
+/-- base names of the NON-`Intervention` variables `expression._iter_variables()` yields: the event variables of every
+leaf and the ranges of every `Sum` (the subscripts are `Intervention` objects, skipped by both `conditional` overloads
+since `fix:` a54a0f5) -/
 def exprNames : Expr → List Name
-  | .prob _ c p => (c ++ p).flatMap varNames
-  | .prod fs => fs.flatMap exprNames
-  | .sum e r => exprNames e ++ r.flatMap varNames
+  | .prob _ c p => ((c ++ p).filter (fun v => !v.isIv)).map (·.name)
+  | .prod fs => exprNamesList fs
+  | .sum e r => exprNames e ++ (r.filter (fun v => !v.isIv)).map (·.name)
   | .frac n d => exprNames n ++ exprNames d
   | .one => []
   | .zero => []
-  | .q d c => (d ++ c).flatMap varNames
+  | .q d c => ((c ++ d).filter (fun v => !v.isIv)).map (·.name)
+def exprNamesList : List Expr → List Name
+  | [] => []
+  | e :: es => exprNames e ++ exprNamesList es
+end
 
 /-- `self / expression` for the cases IDC* can produce (`self` is an ID* estimand, never a `Fraction`):
 `Zero.__truediv__` raises `ZeroDivisionError` on `Zero`; `Fraction.__post_init__` likewise -/
@@ -108,13 +112,10 @@ def divide (e d : Expr) : Except Err Expr :=
   | _, .frac _ _ => .error (.internal "unmodelled: division by a Fraction")
   | _, _ => .ok (.frac e d)
 
-/-- `est.conditional(ranges)`: `Probability.conditional` ignores the interventions when it collects the variables to
-normalise over, `Expression.conditional` does not (and also collects the ranges of inner sums) -/
+/-- `est.conditional(ranges)`: both overloads normalise over the event variables and the ranges of inner sums that are not
+in `ranges`; neither collects intervention subscripts (`Expression.conditional` did before `fix:` a54a0f5) -/
 def conditional (e : Expr) (ranges : List Name) : Except Err Expr :=
-  let names := match e with
-    | .prob _ c p => (c ++ p).map (·.name)
-    | _ => exprNames e
-  let compl := diff' (dedup' names) ranges
+  let compl := diff' (dedup' (exprNames e)) ranges
   divide e (sumSafe e compl)
 
 /-! ### IDC* (idc_star.py:56-162) -/
